@@ -213,7 +213,10 @@ func c52(c *Ctx) {
 		ds := callsIn(f, Callee(altsc, "ALTSRecordCrypto.Decrypt"))
 		c.Expect(len(ds) == 2, nil, f, "two-decrypt-sites", "expected two Decrypt sites (caller buffer large enough / not)")
 		for _, d := range ds {
-			c.Unreachable(d, "short-frame-rejected", CmpInt(LenOf(AnyV), token.LSS, 4))
+			c.Unreachable(d, "short-frame-rejected", CmpInt(LenOf(func(v ssa.Value) bool {
+				sl, ok := v.(*ssa.Slice) // msg = framedMsg[MsgLenFieldSize:]
+				return ok && sl.Low != nil && ConstInt(4)(sl.Low) && sl.High == nil
+			}), token.LSS, 4))
 			c.MustFact(d, "message-type-checked", Cmp(BinOpV(token.AND, CallRes(CalleeX("encoding/binary", "littleEndian.Uint32"), 0), ConstInt(255)), token.EQL, ConstInt(6)))
 			// ciphertext = msg[4:]
 			sl, ok := d.Common().Args[1].(*ssa.Slice)
